@@ -616,6 +616,8 @@ class Class(metaclass=mixin.MixinMeta):  # pylint: disable=undefined-variable
           baselist.append(base)
       newbases.append(baselist)
 
+    # Python refuses a class statement that lists the same base twice.
+    mro.CheckDuplicateBases(newbases[-1], newbases)
     # calc MRO and replace them with original base classes
     return tuple(base2cls[base] for base in mro.MROMerge(newbases))
 
